@@ -251,7 +251,7 @@ def base_conversations():
 
 
 def gen_cases(rng, tier):
-    n_fn, n_act, n_bot, n_e2e = (30000, 2000, 500, 300) if tier == "quick" else (250000, 24000, 5000, 6000)
+    n_fn, n_act, n_bot, n_e2e = (30000, 2000, 500, 300) if tier == "quick" else (200000, 16000, 4000, 4000)
     cases = [{"kind": "ws"}]
     parsers = ["none", "none", "user_intent", "bot_intent", "bot_message", "verbose_v1"]
     for _ in range(n_fn):
@@ -773,3 +773,22 @@ def shrink(case):
             if len(x) > 1:
                 yield dict(case, llm=case["llm"][:i] + [x[: len(x) // 2]] + case["llm"][i + 1:])
                 yield dict(case, llm=case["llm"][:i] + [x[len(x) // 2:]] + case["llm"][i + 1:])
+
+
+def escalate(rng, focus, tier):
+    """focused search after a broken proof / correspondence / tie: the end-to-end hostile search (the only place where
+    a change of the text helpers can turn into an escaping exception, a hang or an evaluated sentinel), plus the
+    actions around the differing text."""
+    n = 500 if tier == "quick" else 4000
+    cases = gen_e2e(rng, n)
+    texts = [focus["s"]] if focus and "s" in focus else []
+    for b in base_conversations():
+        mode, turns, script, msgpos, fb = b
+        for t in texts:
+            for pos in range(len(script)):
+                resp = list(script)
+                resp[pos] = t
+                cases.append({"kind": "e2e", "mode": mode, "turns": turns, "llm": resp, "fallback": fb, "pos": [pos], "msgpos": msgpos})
+    for _ in range(n):
+        cases.append(g_botmsg(rng))
+    return cases
